@@ -72,7 +72,7 @@ type nodeMon struct {
 	lastRegCommit uint64
 
 	// C07
-	exp       hsTriple // exposed within incarnation
+	exp hsTriple // exposed within incarnation
 	// baseFloor: index of the newest snapshot this incarnation installed; the
 	// log base (first index - 1) never falls back below it (C09: the
 	// snapshot is the node's new log base)
@@ -807,6 +807,26 @@ func (m *Monitors) stateChecks(n *Node, pre, post *raft.VerifState, c *Cause) {
 						"node %d became leader of term %d but at index %d it holds a different entry with the term (%d) of the one committed in term %d",
 						n.ID, post.Term, idx, cr.Term, cr.FirstCommitTerm)
 					break
+				}
+			}
+			// "every entry that any node has committed": a node that
+			// committed something else at an index (state-machine safety is
+			// already gone there) leaves every later leader incomplete
+			var alsoIdx []uint64
+			for idx := range reg.alsoCommitted {
+				alsoIdx = append(alsoIdx, idx)
+			}
+			sort.Slice(alsoIdx, func(i, j int) bool { return alsoIdx[i] < alsoIdx[j] })
+			for _, idx := range alsoIdx {
+				for _, cr := range reg.alsoCommitted[idx] {
+					if cr.FirstCommitTerm >= post.Term || idx < post.FirstIndex {
+						continue
+					}
+					if e := n.cachedEntry(idx); e == nil || e.GetTerm() != cr.Term || e.GetType() != cr.Type || dataHash(e.GetData()) != cr.DataHash {
+						m.viol([]string{"C04"}, "leader_completeness", "c04.leader_missing_entry_committed_elsewhere",
+							"node %d became leader of term %d but lacks the entry (%d, term %d) that node %d reported committed in term %d (a different entry had been committed there first)",
+							n.ID, post.Term, idx, cr.Term, cr.By, cr.FirstCommitTerm)
+					}
 				}
 			}
 		}
@@ -1605,6 +1625,10 @@ func (m *Monitors) c09Deliver(n *Node, pre, post *raft.VerifState, c *Cause) {
 		}
 		if pre.PendingSnapIndex != 0 {
 			s.Stats.inc("snap.accepted_while_pending")
+		}
+		if pre.UnstableLen > 0 && si >= pre.UnstableOffset && si+1-pre.UnstableOffset < uint64(pre.UnstableLen) {
+			// the snapshot ends strictly inside the (divergent) unstable entries
+			s.Stats.inc("snap.accepted_inside_unstable_tail")
 		}
 	} else {
 		s.Stats.inc("snap.ignored")
